@@ -1,4 +1,9 @@
 import WebrtcVerif.Base.Wire
+import WebrtcVerif.Drv.C29
+import WebrtcVerif.Drv.C28
+import WebrtcVerif.Drv.C38
+import WebrtcVerif.Drv.C34
+import WebrtcVerif.Drv.C39
 import WebrtcVerif.Drv.C14
 import WebrtcVerif.Drv.C13
 import WebrtcVerif.Drv.C05
@@ -22,6 +27,11 @@ def runLine (toks : List String) : String :=
   | "C40" :: rest => Drv.C40.run rest
   | "C13" :: rest => Drv.C13.run rest
   | "C14" :: rest => Drv.C14.run rest
+  | "C39" :: rest => Drv.C39.run rest
+  | "C34" :: rest => Drv.C34.run rest
+  | "C38" :: rest => Drv.C38.run rest
+  | "C28" :: rest => Drv.C28.run rest
+  | "C29" :: rest => Drv.C29.run rest
   | _ => "bad-op"
 
 def judgeLine (toks : List String) : String :=
@@ -35,6 +45,11 @@ def judgeLine (toks : List String) : String :=
   | "C40" :: rest => Drv.C40.judge rest out
   | "C13" :: rest => Drv.C13.judge rest out
   | "C14" :: rest => Drv.C14.judge rest out
+  | "C39" :: rest => Drv.C39.judge rest out
+  | "C34" :: rest => Drv.C34.judge rest out
+  | "C38" :: rest => Drv.C38.judge rest out
+  | "C28" :: rest => Drv.C28.judge rest out
+  | "C29" :: rest => Drv.C29.judge rest out
   | _ => "bad-judge"
 
 partial def loop (h : IO.FS.Stream) (out : IO.FS.Stream) (f : List String → String) : IO Unit := do
